@@ -39,9 +39,10 @@ def normal(xx, mu, sigma):
 
 import dadi.DFE.PDFs_cython as PDFs_cython
 def biv_lognormal(xx, yy, params):
-    return np.squeeze(PDFs_cython.biv_lognormal(np.asarray(xx, dtype=float), np.asarray(yy, dtype=float), np.asarray(params, dtype=float)))
+    # The compiled code reads its arguments through raw pointers: hand it contiguous arrays.
+    return np.squeeze(PDFs_cython.biv_lognormal(np.ascontiguousarray(xx, dtype=float), np.ascontiguousarray(yy, dtype=float), np.ascontiguousarray(params, dtype=float)))
 def biv_ind_gamma(xx, yy, params):
-    return np.squeeze(PDFs_cython.biv_ind_gamma(np.asarray(xx, dtype=float), np.asarray(yy, dtype=float), np.asarray(params, dtype=float)))
+    return np.squeeze(PDFs_cython.biv_ind_gamma(np.ascontiguousarray(xx, dtype=float), np.ascontiguousarray(yy, dtype=float), np.ascontiguousarray(params, dtype=float)))
 
 # Note: This method has been deprecated in favor of the much faster C version
 # defined in PDFS_c
